@@ -477,18 +477,13 @@ func (w *Wallet) syncWithChain(birthdayStamp *waddrmgr.BlockStamp) error {
 		}
 	}
 
-	// If the wallet requested an on-chain recovery of its funds, we'll do
-	// so now.
-	if w.recoveryWindow > 0 {
-		if err := w.recovery(chainClient, birthdayStamp); err != nil {
-			return fmt.Errorf("unable to perform wallet recovery: "+
-				"%w", err)
-		}
-	}
-
 	// Compare previously-seen blocks against the current chain. If any of
 	// these blocks no longer exist, rollback all of the missing blocks
-	// before catching up with the rescan.
+	// before recovering and catching up with the rescan. This must happen
+	// before the recovery below extends the synced-to block on top of
+	// them: afterwards the tip would match the chain and blocks that were
+	// reorganised out while the wallet was down would never be rolled
+	// back.
 	rollback := false
 	rollbackStamp := w.Manager.SyncedTo()
 	err = walletdb.Update(w.db, func(tx walletdb.ReadWriteTx) error {
@@ -552,6 +547,15 @@ func (w *Wallet) syncWithChain(birthdayStamp *waddrmgr.BlockStamp) error {
 	})
 	if err != nil {
 		return err
+	}
+
+	// If the wallet requested an on-chain recovery of its funds, we'll do
+	// so now.
+	if w.recoveryWindow > 0 {
+		if err := w.recovery(chainClient, birthdayStamp); err != nil {
+			return fmt.Errorf("unable to perform wallet recovery: "+
+				"%w", err)
+		}
 	}
 
 	// Request notifications for connected and disconnected blocks.
